@@ -10,7 +10,7 @@ from fractions import Fraction
 from .broker_rig import EPOCH, Observer, minutes, mil, ts
 
 ASSETS = ["A", "B", "C"]
-SYM = dict((a, "EQ:" + a) for a in ASSETS)
+SYM = dict((a, "EQ:" + a) for a in ASSETS + ["D", "E", "QQ", "ZYX"])      # the extra names: implementation-vs-implementation runs only
 WD = ["MON", "TUE", "WED", "THU", "FRI"]
 PRICE_LEVELS = [8000, 10000, 12500, 16000]
 
@@ -324,6 +324,9 @@ def run_real(c, rng=None, signals_factory=None, alpha_factory=None, csv_dir=None
         out.fills = [(minutes(f["t"]), f["asset"], int(f["qty"]), fx(f["px"]), fx(f["comm"])) for f in fills]
         pf = sess.broker.portfolios[sess.portfolio_id]
         out.cash = fx(pf.cash)
+        if all(e == 0 for e in c["entry"].values()):
+            # a static universe: what it yields once the backtest has used it (before, at and after the run)
+            out.extra["static_universe_after"] = [list(sess.universe.get_assets(ts(t))) for t in (c["start"], (c["start"] + c["end"]) // 2, c["end"] + 1440)]
         out.holdings = dict((a, int(v["quantity"])) for a, v in pf.portfolio_to_dict().items())
         out.extra["pnl"] = dict((a, (float(v["realised_pnl"]), float(v["unrealised_pnl"]), float(v["market_value"])))
                                 for a, v in pf.portfolio_to_dict().items())
